@@ -1494,9 +1494,8 @@ class UserAttribute(Packet):
 
     @property
     def image(self):
-        if 'Image' not in self.subpackets:
-            self.subpackets.addnew('Image')
-        return next(iter(self.subpackets['Image']))
+        # the first image subpacket, or None when there is none: reading must not add one to the packet
+        return next(iter(self.subpackets['Image']), None)
 
     def __init__(self):
         super(UserAttribute, self).__init__()
